@@ -38,6 +38,49 @@ func (s rtpSpec) bytes() []byte {
 	return append(b, s.Body...)
 }
 
+// refRead: the standard's reading of the front of an arbitrary byte string (independent of /repo and of bytes()):
+// a table-19 packet when one is complete, "short" when the bytes end before the declared one does, "err 2" without
+// the marker, "err 1" below the 16 fixed bytes.
+func refRead(d []byte) string {
+	if len(d) < 16 {
+		return "err 1"
+	}
+	if d[0] != 0x30 || d[1] != 0x31 || d[2] != 0x63 || d[3] != 0x64 {
+		return "err 2"
+	}
+	s := rtpSpec{V: d[4] >> 6, P: d[4] >> 5 & 1, X: d[4] >> 4 & 1, CC: d[4] & 15, M: d[5] >> 7, PT: d[5] & 127,
+		Seq: uint16(d[6])<<8 | uint16(d[7]), Chan: d[14], DT: d[15] >> 4, Sub: d[15] & 15}
+	copy(s.Sim[:], d[8:14])
+	at := 16
+	need := func(n int) bool { return len(d) >= at+n }
+	if s.DT != 4 {
+		if !need(8) {
+			return "short"
+		}
+		for _, x := range d[at : at+8] {
+			s.TS = s.TS<<8 | uint64(x)
+		}
+		at += 8
+	}
+	if s.DT <= 2 {
+		if !need(4) {
+			return "short"
+		}
+		s.IFI, s.FI = uint16(d[at])<<8|uint16(d[at+1]), uint16(d[at+2])<<8|uint16(d[at+3])
+		at += 4
+	}
+	if !need(2) {
+		return "short"
+	}
+	n := int(d[at])<<8 | int(d[at+1])
+	at += 2
+	if !need(n) {
+		return "short"
+	}
+	s.Body = d[at : at+n]
+	return s.canon(d[at+n:])
+}
+
 func bcdString(b []byte) string { // the standard's reading of a BCD number: digits, leading zeros dropped
 	s := ""
 	for _, x := range b {
@@ -217,6 +260,16 @@ func c17(c *Ctx) {
 			}
 		}
 	}
+	// (2b) EVERY truncation length of packets with 950- and 951-byte payloads, one data type per header length
+	for _, dt := range []uint8{0, 3, 4} {
+		for _, bl := range []int{950, 951} {
+			s := randSpec(dt, bl)
+			b := s.bytes()
+			for n := 0; n < len(b); n++ {
+				one(b[:n], "short", "truncated-950")
+			}
+		}
+	}
 	// (3) streams: decode repeatedly from the front
 	nstreams := 20
 	if !c.Quick() {
@@ -282,12 +335,17 @@ func c17(c *Ctx) {
 				b[rng.Intn(min(n, 4))] ^= byte(1 << rng.Intn(8))
 			}
 		}
-		if n >= 16 && string(b[:4]) != "01cd" {
-			req = "err 2"
+		// the independent reader's expectation for EVERY string, marker-prefixed ones included (the declared length
+		// of a random string mostly exceeds what follows: "short"; small lengths give complete packets)
+		if rng.Intn(4) == 0 && n >= 32 {
+			b[15] = byte(rng.Intn(256))
+			hl := map[bool]int{true: 16, false: 24}[b[15]>>4 == 4]
+			if b[15]>>4 <= 2 {
+				hl = 28
+			}
+			b[hl], b[hl+1] = 0, byte(rng.Intn(n-hl))
 		}
-		if n < 16 {
-			req = "err 1"
-		}
+		req = refRead(b)
 		one(b, req, "arbitrary")
 	}
 }
